@@ -12,7 +12,12 @@ for d in sorted(glob.glob(os.path.join(V, "seeded", "*"))):
     n_yes += det == "yes"
     n_after += det == "after-strengthening"
     clean = lambda s: " ".join(str(s).replace("|", "/").split())
-    rows.append(f"| {name} | {m['property']} | {clean(m.get('summary', ''))[:240]} | {det} | {clean(m['verif']['ran'])[:330]} |")
+    extra = ""
+    if m["verif"].get("obsolete"):
+        extra = " -- NOW OBSOLETE: " + clean(m["verif"]["obsolete"])[:200]
+    elif m["verif"].get("rebased"):
+        extra = " (re-based onto a later repository fix)"
+    rows.append(f"| {name} | {m['property']} | {clean(m.get('summary', ''))[:240]} | {det} | {clean(m['verif']['ran'])[:330]}{extra} |")
 total = len(rows)
 intro = f"""Sub-agents were given only the text of one property and a scratch worktree, and asked for changes that keep the pinned
 suite green, break the property, and need something specific to manifest (from the second round on they were also told
